@@ -294,7 +294,7 @@ class Serializable(eqx.Module):
         if not path.parent.exists():
             path.parent.mkdir(parents=True, exist_ok=True)
         if path.suffix != ".eqx" and not no_suffix:
-            path = path.with_suffix(".eqx")
+            path = path.with_name(path.name + ".eqx")
 
         eqx.tree_serialise_leaves(path, self)
 
@@ -317,6 +317,10 @@ class Serializable(eqx.Module):
         Returns:
             The deserialized model.
         """
+        path = Path(path)
+        if path.suffix != ".eqx" and not path.exists():
+            path = path.with_name(path.name + ".eqx")
+
         return eqx.tree_deserialise_leaves(
             path, eqx.filter_eval_shape(cls, *args, **kwargs)
         )
